@@ -4,6 +4,7 @@
   3. random larger bodies are recorded with hook events and validated by TLC (impl -> spec),
      at rule level (decides VIOLATION) and strictly against the algorithm model (MODEL-DRIFT only).
 """
+import concurrent.futures
 import json
 import os
 import random
@@ -18,6 +19,11 @@ def canon(case):
         parts = ["const:" + ",".join(case["consts"])] + parts
     if case.get("params"):
         parts = ["param:" + ",".join(case["params"])] + parts
+    if case.get("layout"):
+        # the layout names the input class too (a defect that needs a layout must be keyed by it)
+        lay = case["layout"]
+        parts = ["layout:" + ",".join(k if lay[k] is True else "%s=%s" % (k, json.dumps(lay[k], sort_keys=True, separators=(",", ":")))
+                                      for k in sorted(lay))] + parts
     return " ".join(parts)
 
 
@@ -36,10 +42,16 @@ def run_flat(rep, tier, seed, selftest, cfg):
     if isinstance(mc_cfgs, str):
         mc_cfgs = [mc_cfgs]
     r = None
-    for mc in mc_cfgs:
-        r1 = common.tlc(cfg["module"], mc, workers=cfg.get("workers", 8),
-                        timeout=cfg.get("timeout", {"quick": 900, "thorough": 3400})[tier],
-                        heap=cfg.get("heap", "12g"), tag="%s-mc-%s-%d" % (prop, mc.replace(".cfg", ""), os.getpid()))
+    # the first configuration is the big one; the further (small) ones run beside it with two workers each
+    def run_mc(i_mc):
+        i, mc = i_mc
+        return common.tlc(cfg["module"], mc, workers=cfg.get("workers", 8) if i == 0 else (2 if tier == "quick" else 4),
+                          timeout=cfg.get("timeout", {"quick": 900, "thorough": 3400})[tier],
+                          heap=cfg.get("heap", "12g") if i == 0 else "3g",
+                          tag="%s-mc-%s-%d" % (prop, mc.replace(".cfg", ""), os.getpid()))
+    with concurrent.futures.ThreadPoolExecutor(max_workers=4) as pool:
+        mc_results = list(pool.map(run_mc, enumerate(mc_cfgs)))
+    for mc, r1 in zip(mc_cfgs, mc_results):
         log("[tlc] %s/%s: %d states generated, %d distinct, %d cases, %.1fs, %s" %
             (cfg["module"], mc, r1.generated, r1.distinct, len(r1.cases), r1.wall,
              "no invariant violated" if r1.ok else "INVARIANT %s VIOLATED" % r1.violated))
